@@ -38,6 +38,7 @@ def evalPred (name : String) (a : List String) : Option (Bool × Bool) :=
   | "pe_available_after", [x, y, z] => some (pe_available_after x y z, pe_available_after_ub x y z)
   | "pe_available_space", [x, y, z] =>   -- the whole function: 0 when either early return is taken
       some (!(pe_available_before x y z) && !(pe_available_after x y z) && (pe_available_value x y z != 0#64), pe_available_after_ub x y z)
+  | "pe_fullname_guard_covers_index", [x] => some (decide (x.toNat < (pe_fullname_guard_size x).toNat), false)
   | "pe_rich_nthdr_reject", [x, y] => some (pe_rich_nthdr_reject x y, false)
   | "pe_exports_table_outside", [x, y, z] => some (pe_exports_table_outside x y z, false)
   | "pe_export_names_outside", [x, y, z] => some (pe_export_names_outside x y z, false)
